@@ -75,6 +75,16 @@ CLAIMED["C11"] = dict(
     technique="TLC fault-injection on the listener-machine model replayed into the real loader",
     design="7/C11")
 
+CLAIMED["C12"] = dict(
+    text="The listener machine keeps the implementation's two process-wide tables as state that persists between loads. TLC explores every history "
+         "of up to K loads over 15 scripts (valid, template, tdm, failing at each stage incl. inside loops/includes/metadata, scripts whose options "
+         "mention names) and checks Independent: every outcome equals the outcome from a pristine process; a teeth run with the clearing switched "
+         "off must find the counterexample. Each history is replayed in a freshly forked interpreter with real files; every outcome is compared with "
+         "the specification's and the returned programs must share no mutable object.",
+    note="Trusted: TLC, renderer. Histories of length 2 (quick) / 3 (thorough) over the menu.",
+    technique="TLC exploration of load histories on the listener-machine model with persistent tables + replay of each history in a fresh process",
+    design="7/C12")
+
 NOT_YET = {}
 
 
